@@ -45,7 +45,8 @@ def _fresh(prefix="x"):
 # depend on the value a literal happens to have (a value-dependent shortcut such as `x | False -> False` would)
 # "sameobj": operands of the same class are one and the same Python object (`x == x`, `x - x`); "revealed": every secret operand
 # has been revealed before (`x.to_public()`, result dropped) — the outcome depends on the classes only, not on the history of the object
-PROVENANCES = ["direct", "opresult", "ntuple", "object", "fnparam", "litzero", "litother", "littwo", "sameobj", "revealed"]
+# "cmpresult": a boolean operand is the result of an equality test with a literal on the right (`x == Integer(3)`)
+PROVENANCES = ["direct", "opresult", "ntuple", "object", "fnparam", "litzero", "litother", "littwo", "sameobj", "revealed", "cmpresult"]
 
 
 def _direct(sty, party, salt=3):
@@ -66,6 +67,11 @@ def build(sty, prov, party):
         if sty[1] == "bool":
             return cls(prov != "litzero")
         return cls({"litzero": 0, "litother": 1, "littwo": 2}[prov])
+    if prov == "cmpresult":
+        if sty[1] != "bool" or sty[0] == "const":
+            return _direct(sty, party)
+        x = _direct((sty[0], "int"), party)
+        return x == CLASSES[("const", "int")](3)
     if prov == "opresult":
         a, b = _direct(sty, party, 5), _direct(sty, party, 2)
         if sty[1] == "bool":
